@@ -6,7 +6,8 @@ Module/Parameter machinery, frappy.extparams, frappy.params.Limit, Module.checkL
 
 Four families of models (one model = one generated layout x one clock mode):
   struct    StructParam with 2-3 members; combined read/write methods (both / read only / write only), separate
-            member methods (all / some / none), readonly or not, members with or without own defaults
+            member methods (all / some / none), readonly or not, members with or without own defaults; hardware that
+            stores what it is given, and (layouts with write methods) hardware that alters it: 0.5 grid, one member clamped
   floatenum FloatEnumParam with label sets {plain, explicit indices + unit prefixes, explicit values (not monotonic),
             gaps, duplicated value}; index parameter software only / write method / read + write methods; readonly or not
   limits    <p>_min, <p>_max, both, <p>_limits (automatic TupleOf), <p>_limits typed LimitsType on int / float / scaled
@@ -62,6 +63,8 @@ Oracle calibration (weaker reading taken wherever the statement leaves latitude)
     activate_control), write target on the output (calls self_controlled), update_target by the controller that is
     active.  deactivate_control() called directly by a driver and update_target by a non-controlling module are not
     issued (undocumented use; the statement does not say what controlled_by should show then).
+  * altering hardware: write methods answer with the value the device really took (rounded / clamped), as the documented
+    contract of write_<param> asks; the struct / member agreement is then demanded on the altered values.
   * hardware refusals: the generated driver refuses one marker value (member i == 13) with HardwareError and can be
     switched to fail reads (thorough tier): "every history of reads, writes and updates" includes failing ones.
 """
@@ -245,6 +248,17 @@ def _conv(m, v):
     return int(v) if m == 'i' else float(v)
 
 
+def _store(hwkind, m, v):
+    """what the generated hardware keeps of a written value: 'exact' stores it as given; 'grid' is a device with a
+    resolution of 0.5 for the float members which also clamps member p to [0, 1.5] (it answers with the altered value)"""
+    v = _conv(m, v)
+    if hwkind == 'grid' and m != 'i':
+        v = round(v * 2) / 2
+        if m == 'p':
+            v = min(1.5, max(0.0, v))
+    return v
+
+
 class StructModel(Model):
     family = 'struct'
 
@@ -256,6 +270,7 @@ class StructModel(Model):
         self.pname = {m: prefix + m for m in members}
         self.combined = kind.startswith('comb')
         self.layout = 'comb' if self.combined else 'sep'
+        self.hwkind = hwkind = s.get('hw', 'exact')
 
         def mk(m):
             kw = {'default': DEFAULTS[m]} if defaults else {}
@@ -276,7 +291,7 @@ class StructModel(Model):
             def write_struct(self, value):
                 if value.get('i') == REFUSED:
                     raise HardwareError('value refused by hardware')
-                self._hw = {m: _conv(m, value[m]) for m in members}
+                self._hw = {m: _store(hwkind, m, value[m]) for m in members}
                 return dict(self._hw)
             ns['write_' + sname] = write_struct
             self.hwwrite.add('S')
@@ -293,21 +308,26 @@ class StructModel(Model):
                     def wfunc(self, value, m=m):
                         if m == 'i' and value == REFUSED:
                             raise HardwareError('value refused by hardware')
-                        self._hw[m] = _conv(m, value)
+                        self._hw[m] = _store(hwkind, m, value)
                         return self._hw[m]
                     ns['write_' + self.pname[m]] = wfunc
                     self.hwwrite.add(m)
-        self.cls = type('Struct_' + kind.replace('-', '_') + f'_{n}', (Module,), ns)
+        self.cls = type('Struct_' + kind.replace('-', '_') + f'_{n}_{hwkind}', (Module,), ns)
 
         # operation menu
         ops = self.ops
         full = lambda v: {m: v for m in members}   # noqa
         mixed = {m: (2 if k % 2 else 1) for k, m in enumerate(members)}
         structvals = [full(1), full(2), dict(full(2), i=REFUSED), {members[-1]: 2}, dict(full(1), i=200)]
+        offgrid = ()
+        if hwkind == 'grid':
+            # values the device alters: 1.25 is off its grid (-> 1.0), p = 2 is beyond its clamp (-> 1.5)
+            offgrid = (1.25,)
+            structvals.append({m: (1 if m == 'i' else 1.25) for m in members})
         for v in structvals:
             ops.append(['c', 'w', 'S', v])
         for m in members:
-            for v in (1, 2) + ((REFUSED, 200) if m == 'i' else ()):
+            for v in (1, 2) + ((REFUSED, 200) if m == 'i' else offgrid):
                 ops.append(['c', 'w', m, v])
         ops.append(['c', 'r', 'S'])
         for m in members:
@@ -316,6 +336,8 @@ class StructModel(Model):
             ops.append(['d', 'w', 'S', mixed])
             for m in members:
                 ops.append(['d', 'w', m, 2])
+                if offgrid and m != 'i':
+                    ops.append(['d', 'w', m, offgrid[0]])
         ops.append(['d', 'r', 'S'])
         for m in members:
             ops.append(['d', 'r', m])
@@ -435,8 +457,15 @@ def struct_specs(tier):
     ]
     if tier == 'thorough':
         rows += [(3, k, ro, df, pf) for (n, k, ro, df, pf) in rows if n == 2]
-    return [dict(family='struct', n=n, kind=k, readonly=ro, defaults=df, prefix=pf, clock=c)
-            for (n, k, ro, df, pf) in rows for c in ('slow', 'fast')]
+    rows = [r + ('exact',) for r in rows]
+    # the same layouts on hardware that alters what it is given (0.5 grid, p clamped): every layout with a write method
+    grid = [(2, 'comb-rw', False, False, ''), (2, 'comb-w', False, False, ''), (2, 'sep-all', False, False, '')]
+    if tier == 'thorough':
+        grid += [(3, 'comb-rw', False, False, 'pid_'), (3, 'sep-all', False, False, 'pid_'), (2, 'sep-part', False, False, ''),
+                 (2, 'comb-rw', False, True, ''), (2, 'sep-all', False, True, ''), (3, 'comb-w', False, False, '')]
+    rows += [r + ('grid',) for r in grid]
+    return [dict(family='struct', n=n, kind=k, readonly=ro, defaults=df, prefix=pf, hw=hw, clock=c)
+            for (n, k, ro, df, pf, hw) in rows for c in ('slow', 'fast')]
 
 
 # ---------------------------------------------------------------------------------------------
